@@ -127,6 +127,110 @@ func (c *c11) judge(s, u [32]byte, cls, desc string) {
 	if s2 != s || u2 != u {
 		m.Violation("scalarmult-modifies-inputs", wit)
 	}
+	// the slice X25519 returned earlier must have survived the later calls
+	if err == nil && !zero && !bytes.Equal(got, want[:]) {
+		m.Violation("x25519-earlier-result-changed-by-later-call", wit)
+	}
+
+	// In-place uses of the array-pointer API: same RFC 7748 value expected.
+	x, y := u, s
+	curve25519.ScalarMult(&x, &y, &x) // dst == point
+	m.Eval()
+	m.Count("inplace:ScalarMult dst==point", 1)
+	m.Distinct("ScalarMult dst==point " + cls)
+	if x != want || y != s {
+		wit["dst"], wit["scalar_after"] = mon.FullHex(x[:]), mon.FullHex(y[:])
+		m.Violation("scalarmult-inplace-wrong:dst==point", wit)
+	}
+	x, y = u, s
+	curve25519.ScalarMult(&y, &y, &x) // dst == scalar
+	m.Eval()
+	m.Count("inplace:ScalarMult dst==scalar", 1)
+	m.Distinct("ScalarMult dst==scalar " + cls)
+	if y != want || x != u {
+		wit["dst"], wit["point_after"] = mon.FullHex(y[:]), mon.FullHex(x[:])
+		m.Violation("scalarmult-inplace-wrong:dst==scalar", wit)
+	}
+	// X25519 with scalar and point in one backing array (adjacent halves)
+	var both [64]byte
+	copy(both[:32], s[:])
+	copy(both[32:], u[:])
+	got2, err2 := curve25519.X25519(both[:32], both[32:])
+	m.Eval()
+	m.Count("inplace:X25519 shared backing array", 1)
+	if (err2 != nil) != zero || (!zero && !bytes.Equal(got2, want[:])) {
+		wit["got"], wit["err"] = mon.FullHex(got2), fmt.Sprint(err2)
+		m.Violation("x25519-shared-backing-array-wrong", wit)
+	}
+	if !bytes.Equal(both[:32], s[:]) || !bytes.Equal(both[32:], u[:]) {
+		m.Violation("x25519-modifies-inputs", wit)
+	}
+}
+
+// self runs the forms in which one array is both inputs (and possibly the
+// output too), the overlapping-slices form of X25519 and the in-place
+// ScalarBaseMult, on the 32-byte value x.
+func (c *c11) self(x [32]byte, cls string) {
+	m := c.m
+	want := x25519big.X25519(&x, &x) // scalar = point = x
+	zero := x25519big.IsZero(&want)
+	wit := map[string]any{"x": mon.FullHex(x[:]), "class": cls, "rfc7748(x,x)": mon.FullHex(want[:])}
+	var d [32]byte
+	fill(d[:], 0xA5)
+	v := x
+	curve25519.ScalarMult(&d, &v, &v) // scalar == point
+	m.Eval()
+	m.Count("inplace:ScalarMult scalar==point", 1)
+	m.Distinct("ScalarMult scalar==point " + cls)
+	if d != want || v != x {
+		wit["dst"], wit["x_after"] = mon.FullHex(d[:]), mon.FullHex(v[:])
+		m.Violation("scalarmult-inplace-wrong:scalar==point", wit)
+	}
+	v = x
+	curve25519.ScalarMult(&v, &v, &v) // all three the same array
+	m.Eval()
+	m.Count("inplace:ScalarMult dst==scalar==point", 1)
+	m.Distinct("ScalarMult dst==scalar==point " + cls)
+	if v != want {
+		wit["dst"] = mon.FullHex(v[:])
+		m.Violation("scalarmult-inplace-wrong:dst==scalar==point", wit)
+	}
+	v = x
+	got, err := curve25519.X25519(v[:], v[:]) // identical slices
+	m.Eval()
+	m.Count("inplace:X25519 scalar==point slice", 1)
+	if (err != nil) != zero || (!zero && !bytes.Equal(got, want[:])) || v != x {
+		wit["got"], wit["err"] = mon.FullHex(got), fmt.Sprint(err)
+		m.Violation("x25519-identical-slices-wrong", wit)
+	}
+	// partially overlapping slices of one 48-byte array: scalar = b[0:32], point = b[16:48]
+	var b48 [48]byte
+	copy(b48[:32], x[:])
+	for i := 32; i < 48; i++ {
+		b48[i] = x[i-32] ^ 0x5a
+	}
+	var sc, pt [32]byte
+	copy(sc[:], b48[:32])
+	copy(pt[:], b48[16:48])
+	wantO := x25519big.X25519(&sc, &pt)
+	snap := b48
+	got, err = curve25519.X25519(b48[:32], b48[16:48])
+	m.Eval()
+	m.Count("inplace:X25519 overlapping slices", 1)
+	m.Distinct("X25519 overlapping " + cls)
+	if zo := x25519big.IsZero(&wantO); (err != nil) != zo || (!zo && !bytes.Equal(got, wantO[:])) || b48 != snap {
+		m.Violation("x25519-overlapping-slices-wrong", map[string]any{"backing": mon.FullHex(snap[:]), "got": mon.FullHex(got), "err": fmt.Sprint(err), "rfc7748": mon.FullHex(wantO[:])})
+	}
+	// ScalarBaseMult(dst, scalar) with dst == scalar
+	wantB := x25519big.X25519(&x, &x25519big.Base)
+	v = x
+	curve25519.ScalarBaseMult(&v, &v)
+	m.Eval()
+	m.Count("inplace:ScalarBaseMult dst==scalar", 1)
+	m.Distinct("ScalarBaseMult dst==scalar " + cls)
+	if v != wantB {
+		m.Violation("scalarbasemult-inplace-wrong:dst==scalar", map[string]any{"scalar": mon.FullHex(x[:]), "dst": mon.FullHex(v[:]), "rfc7748": mon.FullHex(wantB[:])})
+	}
 }
 
 // C11: curve25519.X25519 / ScalarMult / ScalarBaseMult equal RFC 7748 for all
@@ -135,7 +239,7 @@ func TestC11(t *testing.T) {
 	m := mon.New(t, "C11")
 	defer m.Done()
 	c := &c11{m}
-	m.Rule("streams: low-order = every encoding of a small-order u (0, 1, p-1, the two order-8 values, their +p aliases below 2^255, each with bit 255 clear/set: 14 strings) x 32 scalars covering all clamped-bit patterns; edge = u in {0..32, p-32..p-1, every non-canonical p..2^255-1} x bit 255 clear/set x scalars cycling the clamped bits; random = uniformly random 32-byte scalar and u, with ScalarBaseMult vs X25519(s, Basepoint) and a two-party DH. Oracle = RFC 7748 ladder over math/big (verif/ref/x25519big); witness libsodium crypto_scalarmult_curve25519 (incl. its -1 for all-zero output). Judged: X25519 value or error IFF reference value is all zero; ScalarMult dst equals the reference value (all zero for low order, dst pre-filled with 0xA5); ScalarBaseMult == X25519(s,Basepoint) == reference; shared secrets equal. Distinct = (entry point, input class).")
+	m.Rule("streams: low-order = every encoding of a small-order u (0, 1, p-1, the two order-8 values, their +p aliases below 2^255, each with bit 255 clear/set: 14 strings) x 32 scalars covering all clamped-bit patterns; edge = u in {0..32, p-32..p-1, every non-canonical p..2^255-1} x bit 255 clear/set x scalars cycling the clamped bits; random = uniformly random 32-byte scalar and u, with ScalarBaseMult vs X25519(s, Basepoint) and a two-party DH. Oracle = RFC 7748 ladder over math/big (verif/ref/x25519big); witness libsodium crypto_scalarmult_curve25519 (incl. its -1 for all-zero output). In-place forms (ScalarMult dst==point, dst==scalar, scalar==point, all three one array; ScalarBaseMult dst==scalar; X25519 on slices sharing/overlapping one backing array; RFC 7748 §5.2 iteration run in place) expect the same RFC value. Every input is snapshotted and must be unchanged after the call unless it is the output. Judged: X25519 value or error IFF reference value is all zero; ScalarMult dst equals the reference value (all zero for low order, dst pre-filled with 0xA5); ScalarBaseMult == X25519(s,Basepoint) == reference; shared secrets equal. Distinct = (entry point, input class).")
 	m.Assume("verif/ref/x25519big passes RFC 7748 §5.2 (both vectors, 1 and 1000 iterations) and §6.1; x/crypto/curve25519 wraps crypto/ecdh, so the standard library is the implementation under observation, not an oracle")
 	m.Note("inputs whose length is not 32: the documentation only says the slices are 32 bytes; outcomes are recorded in wrong_length:* counters and not judged, except that a nil error must come with a 32-byte result")
 
@@ -216,6 +320,9 @@ func TestC11(t *testing.T) {
 		if !bytes.Equal(curve25519.Basepoint, x25519big.Base[:]) {
 			m.Violation("basepoint-variable-changed", w)
 		}
+		if a2 != a || nine[0] != 9 || !isZero(nine[1:]) {
+			m.Violation("scalarbasemult-or-x25519-modifies-inputs", w)
+		}
 
 		// two parties
 		b := scalarPattern(r, r.IntN(32))
@@ -231,11 +338,89 @@ func TestC11(t *testing.T) {
 		wantK := x25519big.X25519(&a, &pb)
 		m.Eval()
 		m.Count("dh_symmetry_cases", 1)
+		if a2 != a || pubA != wantA || !bytes.Equal(viaBase, wantA[:]) || !bytes.Equal(pubB, pb[:]) {
+			m.Violation("earlier-output-or-input-changed-by-later-call", w)
+		}
+		m.Count("earlier_outputs_reverified", 1)
 		if e1 != nil || e2 != nil || !bytes.Equal(k1, k2) || !bytes.Equal(k1, wantK[:]) {
 			m.Violation("dh-shared-secret-mismatch", map[string]any{"a": mon.FullHex(a[:]), "b": mon.FullHex(b[:]), "A": mon.FullHex(pubA[:]), "B": mon.FullHex(pubB), "k_ab": mon.FullHex(k1), "k_ba": mon.FullHex(k2), "rfc7748": mon.FullHex(wantK[:]), "e1": fmt.Sprint(e1), "e2": fmt.Sprint(e2)})
 		}
 		if i < 3 {
 			m.Sample(map[string]any{"stream": "random", "a": mon.FullHex(a[:]), "A": mon.FullHex(pubA[:]), "u": mon.FullHex(u[:]), "shared": mon.FullHex(k1)})
+		}
+	})
+
+	// one array as both inputs / all three arguments; overlapping slices; in-place ScalarBaseMult
+	nSelf := m.N(400, 6000)
+	m.Cases("inplace-self", nSelf, func(i int64, r *rand.Rand) {
+		var x [32]byte
+		cls := "random"
+		switch {
+		case i < int64(len(lo)):
+			x, cls = lo[i], "low-order"
+		case i < int64(len(lo)+len(eu)):
+			x, cls = eu[i-int64(len(lo))], uClass(eudesc[i-int64(len(lo))])
+		default:
+			x = scalarPattern(r, int(i)%32)
+		}
+		c.self(x, cls)
+	})
+
+	// RFC 7748 §5.2 iteration test run with the in-place forms only:
+	// k, u = X25519(k, u), k.
+	m.Each("rfc7748-iterated-inplace", 2, func(i int64, r *rand.Rand) {
+		want1 := "422c8e7a6227d7bca1350b3e2bb7279f7897b87bb6854b783c60e80311ae3079"
+		want1000 := "684cf59ba83309552800ef566f2f4d3c1c3887c49360e3875f2eb94d99532c51"
+		if i == 0 { // array API, alternating dst==point and dst==scalar
+			k, u := x25519big.Base, x25519big.Base
+			for it := 1; it <= 1000; it++ {
+				if it%2 == 1 {
+					curve25519.ScalarMult(&u, &k, &u) // u = X25519(k,u) in place
+					k, u = u, k
+				} else {
+					old := k
+					curve25519.ScalarMult(&k, &k, &u) // k = X25519(k,u) in place
+					u = old
+				}
+				m.Eval()
+				if it == 1 {
+					m.Count("rfc7748_iter1_inplace", 1)
+					if mon.FullHex(k[:]) != want1 {
+						m.Violation("rfc7748-iteration-inplace-wrong:ScalarMult", map[string]any{"iterations": 1, "got": mon.FullHex(k[:]), "want": want1})
+						return
+					}
+				}
+			}
+			m.Count("rfc7748_iter1000_inplace", 1)
+			if mon.FullHex(k[:]) != want1000 {
+				m.Violation("rfc7748-iteration-inplace-wrong:ScalarMult", map[string]any{"iterations": 1000, "got": mon.FullHex(k[:]), "want": want1000})
+			}
+			return
+		}
+		// slice API: k and u live in one backing array, the result is copied back over k
+		var b [64]byte
+		b[0], b[32] = 9, 9
+		k, u := b[:32], b[32:]
+		for it := 1; it <= 1000; it++ {
+			res, err := curve25519.X25519(k, u)
+			if err != nil {
+				m.Violation("rfc7748-iteration-inplace-wrong:X25519", map[string]any{"iteration": it, "err": err.Error()})
+				return
+			}
+			copy(u, k)
+			copy(k, res)
+			m.Eval()
+			if it == 1 {
+				m.Count("rfc7748_iter1_inplace", 1)
+				if mon.FullHex(k) != want1 {
+					m.Violation("rfc7748-iteration-inplace-wrong:X25519", map[string]any{"iterations": 1, "got": mon.FullHex(k), "want": want1})
+					return
+				}
+			}
+		}
+		m.Count("rfc7748_iter1000_inplace", 1)
+		if mon.FullHex(k) != want1000 {
+			m.Violation("rfc7748-iteration-inplace-wrong:X25519", map[string]any{"iterations": 1000, "got": mon.FullHex(k), "want": want1000})
 		}
 	})
 
@@ -276,6 +461,15 @@ func TestC11(t *testing.T) {
 	m.Gate("edge_cases:noncanonical|bit255", 19*4, "u in p..2^255-1, bit 255 set")
 	m.Gate("edge_cases:canonical-edge|bit255", 65*4, "u near 0 / p with bit 255 set")
 	m.Gate("bit255_set_cases", 500, "bit 255 of u set")
+	nJudge := len(lo)*scalarsPerLow + len(eu)*reps + nRandom
+	m.Gate("inplace:ScalarMult dst==point", nJudge*9/10, "ScalarMult with dst and point the same array (low-order, edge and random inputs)")
+	m.Gate("inplace:ScalarMult dst==scalar", nJudge*9/10, "ScalarMult with dst and scalar the same array")
+	m.Gate("inplace:X25519 shared backing array", nJudge*9/10, "X25519 with scalar and point in one backing array")
+	for _, f := range []string{"ScalarMult scalar==point", "ScalarMult dst==scalar==point", "X25519 scalar==point slice", "X25519 overlapping slices", "ScalarBaseMult dst==scalar"} {
+		m.Gate("inplace:"+f, nSelf, "in-place form: "+f)
+	}
+	m.Gate("rfc7748_iter1_inplace", 2, "RFC 7748 §5.2 one iteration, in-place forms (array and slice API)")
+	m.Gate("rfc7748_iter1000_inplace", 2, "RFC 7748 §5.2 1000 iterations, in-place forms")
 	m.Gate("scalarbasemult_cases", nRandom*9/10, "ScalarBaseMult compared")
 	m.Gate("dh_symmetry_cases", nRandom*9/10, "two-party agreement compared")
 }
